@@ -28,6 +28,12 @@ var Client = &http.Client{Transport: &http.Transport{MaxIdleConnsPerHost: 64, Di
 
 // Do sends one request and reads the whole body.
 func Do(ctx context.Context, method, url string, hdr map[string]string, body []byte) Resp {
+	if _, ok := ctx.Deadline(); !ok {
+		// no exchange of the reference peer waits for ever, whatever the server does
+		var cancel context.CancelFunc
+		ctx, cancel = context.WithTimeout(ctx, 10*time.Second)
+		defer cancel()
+	}
 	var rd io.Reader
 	if body != nil {
 		rd = bytes.NewReader(body)
@@ -134,7 +140,10 @@ func OpenSSE(parent context.Context, method, url string, hdr map[string]string, 
 	for k, v := range hdr {
 		req.Header.Set(k, v)
 	}
+	// the response headers must arrive within a bound; the body may stay open for ever
+	hdrTimer := time.AfterFunc(10*time.Second, cancel)
 	resp, err := Client.Do(req)
+	hdrTimer.Stop()
 	if err != nil {
 		cancel()
 		return nil, err
